@@ -96,7 +96,7 @@ class W:
         """Replaces the placeholders in the directive's text. Returns (statements to put before the
         directive, text).  Variables declared before the directive are evaluated first, in order."""
         order = [int(m) for m in re.findall("\x00(\\d+)\x00", text)]
-        names = list(GEN_NAMES)
+        names = [n for n in GEN_NAMES if n not in getattr(self, "reserved", ())]
         self.rng.shuffle(names)
         pre, num, sub = [], {}, {}
         k = 0
@@ -172,7 +172,13 @@ def render_flow(p):
     name = p["name"]
     tys = {k: Ty(name, k, st["tkind"][str(k)]) for k in range(1, p["ntypes"] + 1)}
     w = W(st.get("argforms"), st.get("argseed", 0))
-    ctxph = w.arg("%s.Ctx()" % (st.get("shadow") or ["x"])[0])   # the context argument comes first in source order
+    if st.get("uservars"):
+        # user variables named like generated identifiers, with the types generated code gives those names,
+        # mentioned in the context argument (C15: they must not be captured)
+        w.reserved = ("startTime", "emitter")
+        ctxph = w.arg("x.CtxChecked(startTime.Equal(h.Epoch), emitter == h.UserEmitter)", form="call")
+    else:
+        ctxph = w.arg("%s.Ctx()" % (st.get("shadow") or ["x"])[0])   # the context argument comes first in source order
     xdecls = []
     out = []
     decls = "".join(t.decl() + "\n" for t in tys.values() if t.decl())
@@ -290,6 +296,8 @@ def render_flow(p):
         else:
             text += opt_task(unit(p, o))
     pre, dtext = w.finish("\terr := cff.Flow(\n\t\t%s,\n" % ctxph + text + "\t)\n")
+    if st.get("uservars"):
+        body.append("\tstartTime, emitter := h.Epoch, h.UserEmitter\n\t_, _ = startTime, emitter\n")
     src = "func %s(x *h.X) {\n" % name + "".join(body) + pre + dtext
     src += "\tx.Ret(err%s)\n}\n" % "".join(", " + tys[ty].acc("r%d" % ty) for ty in p["results"])
     decls += "".join(xdecls)
@@ -307,7 +315,11 @@ def render_parallel(p):
     st = p["style"]
     name = p["name"]
     w = W(st.get("argforms"), st.get("argseed", 0))
-    ctxph = w.arg("x.Ctx()")
+    if st.get("uservars"):
+        w.reserved = ("startTime", "emitter")
+        ctxph = w.arg("x.CtxChecked(startTime.Equal(h.Epoch), emitter == h.UserEmitter)", form="call")
+    else:
+        ctxph = w.arg("x.Ctx()")
     decls = ""
     pre = ""
     text = ""
@@ -427,6 +439,8 @@ def render_parallel(p):
             if s:
                 text += s
     pre2, dtext = w.finish("\terr := cff.Parallel(\n\t\t%s,\n" % ctxph + text + "\t)\n")
+    if st.get("uservars"):
+        pre += "\tstartTime, emitter := h.Epoch, h.UserEmitter\n\t_, _ = startTime, emitter\n"
     src = "func %s(x *h.X) {\n" % name + pre + pre2 + dtext + "\tx.Ret(err)\n}\n"
     return decls, src, w.k
 
@@ -631,7 +645,7 @@ def gen_flow(rng, name, max_tasks=4, features=None, plain=False):
              style=dict(tkind=pick_kinds(rng, ntypes, params), order=order,
                         spell={str(u["id"]): rng.choice(["lit", "lit", "paren", "method"]) for u in units},
                         argforms=rng.choice([["call"], ["call", "call", "ident"], ["call", "ident"]]), argseed=rng.randint(0, 10**6),
-                        altspell={str(u["id"]): rng.random() < 0.5 for u in units},
+                        altspell={str(u["id"]): rng.random() < 0.5 for u in units}, uservars=rng.random() < 0.3,
                         emitshape=emitshape, emittree=emittree))
     return p
 
@@ -647,7 +661,7 @@ def gen_parallel(rng, name):
     coemode = rng.choice(["none", "none", "true", "false", "expr"])
     ncoll = rng.choice([0, 1, 1, 2]) if ntask else rng.choice([1, 1, 2])
     style = dict(order=[], namedslice={}, tasksgroup=[], argforms=rng.choice([["call"], ["call", "call", "ident"], ["call", "ident"]]),
-                 argseed=rng.randint(0, 10**6), spell={})
+                 argseed=rng.randint(0, 10**6), spell={}, uservars=rng.random() < 0.3)
     for c in range(1, ncoll + 1):
         ismap = rng.random() < 0.4
         ln = rng.choice([-1, 0, 1, 2, 3, 3])
